@@ -9,9 +9,9 @@ Definition clean (r : uresult) : Prop :=
   match r with UStuck => False | UErr _ d => d = false | UOk _ _ _ _ => True end.
 
 (* tails made only of emits / relocation / fixup creation never fail *)
-Definition effect_only (u : uop) : bool := match u with UEmit _ | UReloc | UFixup _ _ => true | _ => false end.
+Definition effect_only (u : uop) : bool := match u with UEmit _ | UReloc | UFixup _ _ _ _ _ => true | _ => false end.
 
-Lemma exec_effect_only : forall valid us ac, forallb effect_only us = true -> clean (exec valid us ac).
+Lemma exec_effect_only : forall valid cur us ac, forallb effect_only us = true -> clean (exec valid cur us ac).
 Proof.
   induction us as [| u t IH]; intros ac H; cbn [exec]; [exact I |].
   cbn [forallb] in H. apply andb_true_iff in H. destruct H as [Hu Ht].
@@ -19,18 +19,18 @@ Proof.
 Qed.
 
 (* tails made of emits and then either a failure (before any side effect) or effects *)
-Lemma exec_fail_clean : forall valid e t ac, a_dirty ac = false -> clean (exec valid (UFail e :: t) ac).
+Lemma exec_fail_clean : forall valid cur e t ac, a_dirty ac = false -> clean (exec valid cur (UFail e :: t) ac).
 Proof. intros. cbn. assumption. Qed.
 
-Lemma exec_guarded : forall valid id us ac,
+Lemma exec_guarded : forall valid cur id us ac,
   a_dirty ac = false ->
-  (valid id = true -> clean (exec valid us ac)) ->
-  clean (exec valid (UValid id :: UDeref id :: us) ac).
+  (valid id = true -> clean (exec valid cur us ac)) ->
+  clean (exec valid cur (UValid id :: UDeref id :: us) ac).
 Proof.
-  intros valid id us ac D H. cbn [exec]. destruct (valid id) eqn:V; [apply H; reflexivity | cbn; exact D].
+  intros valid cur id us ac D H. cbn [exec]. destruct (valid id) eqn:V; [apply H; reflexivity | cbn; exact D].
 Qed.
 
-Lemma x86_jmp_clean : forall s o8 o32 n id sh lg, clean (exec (label_valid s) (x86_jmp_path s o8 o32 n id sh lg) acc0).
+Lemma x86_jmp_clean : forall s o8 o32 n id sh lg, clean (exec (label_valid s) (cur_size s) (x86_jmp_path s o8 o32 n id sh lg) acc0).
 Proof.
   intros. unfold x86_jmp_path. cbn [app]. apply exec_guarded; [reflexivity |]. intros _.
   destruct (bound_here s id) as [off |].
@@ -40,19 +40,20 @@ Proof.
     destruct (negb o32 || sh); [apply exec_fail_clean; reflexivity | apply exec_effect_only; reflexivity].
 Qed.
 
-Lemma x86_lea_clean : forall a s d id, clean (exec (label_valid s) (x86_lea_path a s d id) acc0).
+Lemma x86_lea_clean : forall a s d disp id, clean (exec (label_valid s) (cur_size s) (x86_lea_path a s d disp id) acc0).
 Proof.
   intros. unfold x86_lea_path. destruct a.
-  - cbn [app exec]. change (clean (exec (label_valid s) (UValid id :: UDeref id :: UReloc :: (if bound_anywhere s id then [UEmit 4] else [UFixup id true; UEmit 4])) (mkAcc (0 + 2) None false 0 false))).
+  - cbn [app exec]. change (clean (exec (label_valid s) (cur_size s) (UValid id :: UDeref id :: UReloc :: (if bound_anywhere s id then [UEmit 4] else [UFixup id true 0 0 0; UEmit 4])) (mkAcc (0 + 2) None false 0 false))).
     apply exec_guarded; [reflexivity |]. intros _. apply exec_effect_only. destruct (bound_anywhere s id); reflexivity.
   - cbn [app]. apply exec_guarded; [reflexivity |]. intros _. destruct (bound_here s id); apply exec_effect_only; reflexivity.
-  - cbn [app exec]. change (clean (exec (label_valid s) (UValid id :: UDeref id :: UReloc :: (if bound_anywhere s id then [UEmit 4] else [UFixup id true; UEmit 4])) (mkAcc (0 + 2) None false 0 false))).
+  - cbn [app exec]. change (clean (exec (label_valid s) (cur_size s) (UValid id :: UDeref id :: UReloc :: (if bound_anywhere s id then [UEmit 4] else [UFixup id true 0 0 0; UEmit 4])) (mkAcc (0 + 2) None false 0 false))).
     apply exec_guarded; [reflexivity |]. intros _. apply exec_effect_only. destruct (bound_anywhere s id); reflexivity.
 Qed.
 
-Lemma a64_rel_clean : forall s bits discard id, clean (exec (label_valid s) (a64_rel_path s bits discard id) acc0).
+Lemma a64_rel_clean : forall s bits discard rok id, clean (exec (label_valid s) (cur_size s) (a64_rel_path s bits discard rok id) acc0).
 Proof.
-  intros. unfold a64_rel_path. cbn [app]. apply exec_guarded; [reflexivity |]. intros _.
+  intros. unfold a64_rel_path. destruct rok; [| apply exec_fail_clean; reflexivity].
+  cbn [app]. apply exec_guarded; [reflexivity |]. intros _.
   destruct (bound_here s id) as [off |]; [| apply exec_effect_only; reflexivity].
   destruct (((off - cur_size s) mod 2 ^ discard =? 0) && fits_signed bits ((off - cur_size s) / 2 ^ discard));
     [apply exec_effect_only; reflexivity | apply exec_fail_clean; reflexivity].
@@ -75,18 +76,26 @@ Proof. intros a s k id sh lg H. pose proof (rel_paths_clean a s k id sh lg) as C
 Theorem rel_paths_fail_before_effects : forall a s k id sh lg e d, rel_result a s k id sh lg = UErr e d -> d = false.
 Proof. intros a s k id sh lg e d H. pose proof (rel_paths_clean a s k id sh lg) as C. rewrite H in C. exact C. Qed.
 
-(* an invalid label id is refused with kInvalidLabel, whatever else *)
+(* an invalid label id is refused — with kInvalidLabel, or, on AArch64, with kInvalidPhysId when the register operand of
+   cbz/tbz/adr/ldr names no register (that check comes first) — and nothing was created *)
 Theorem rel_invalid_label_refused : forall a s k id sh lg,
-  label_valid s id = false -> rel_result a s k id sh lg = UErr kInvalidLabel false.
+  label_valid s id = false ->
+  rel_result a s k id sh lg = UErr kInvalidLabel false \/ rel_result a s k id sh lg = UErr kInvalidPhysId false.
 Proof.
   intros a s k id sh lg V. unfold rel_result, rel_path.
-  destruct k; unfold x86_jmp_path, x86_lea_path, a64_rel_path; try (cbn [app exec]; rewrite V; reflexivity).
-  destruct a; cbn [app exec]; rewrite V; reflexivity.
+  destruct k; unfold x86_jmp_path, x86_lea_path, a64_rel_path; try (left; cbn [app exec]; rewrite V; reflexivity).
+  - left. destruct a; cbn [app exec]; rewrite V; reflexivity.
+  - destruct reg_ok; [left | right]; cbn [app exec]; [rewrite V |]; reflexivity.
 Qed.
+
+(* a register operand that names no register is refused before the label is looked at *)
+Theorem a64_rel_bad_register_refused : forall a s bits discard id sh lg,
+  rel_result a s (A64Rel bits discard false) id sh lg = UErr kInvalidPhysId false.
+Proof. intros. reflexivity. Qed.
 
 (* the pinned 32-bit `[label]` path dereferences the entry of an invalid label id (DESIGN 7.3; fixed by
    fixes/C14-invalid-label-x86.patch) *)
-Theorem x86_lea32_pinned_refuted : exists s id, exec (label_valid s) (x86_lea32_path_pinned s id) acc0 = UStuck.
+Theorem x86_lea32_pinned_refuted : exists s id, exec (label_valid s) (cur_size s) (x86_lea32_path_pinned s id) acc0 = UStuck.
 Proof. exists init_state, 123456. reflexivity. Qed.
 
 (* the verdict is never the placeholder, and the emit transaction built from it is atomic (instance of the general theorem) *)
@@ -98,7 +107,7 @@ Proof.
   destruct (rel_result a s k id (Z.testbit o 4) (Z.testbit o 5)) as [n fx l dr | e d |] eqn:R; cbn [verdict_of]; [exact I | | destruct C].
   (* the error codes of the paths are real ones *)
   unfold rel_result in R.
-  assert (E : forall us ac, (forall e', In (UFail e') us -> e' <> 0) -> exec (label_valid s) us ac = UErr e d -> e <> 0).
+  assert (E : forall us ac, (forall e', In (UFail e') us -> e' <> 0) -> exec (label_valid s) (cur_size s) us ac = UErr e d -> e <> 0).
   { induction us as [| u t IH]; intros ac HF H; cbn [exec] in H; [discriminate |].
     destruct u.
     - destruct (label_valid s id0); [eapply IH; [intros; apply HF; right; assumption | eassumption] | inversion H; subst; vm_compute; discriminate].
@@ -121,10 +130,12 @@ Proof.
       repeat (destruct I' as [I' | I']; try discriminate);
       try (destruct (bound_anywhere s id); cbn in I'; intuition discriminate);
       try (destruct (bound_here s id); cbn in I'; intuition discriminate).
-  - unfold a64_rel_path in I'. cbn [app In] in I'. destruct I' as [I' | [I' | I']]; try discriminate.
-    destruct (bound_here s id); [| cbn in I'; intuition discriminate].
-    destruct (((z - cur_size s) mod 2 ^ discard =? 0) && fits_signed bits ((z - cur_size s) / 2 ^ discard)); cbn in I'; destruct I' as [I' | I']; try contradiction; try discriminate.
-    inversion I'; subst; vm_compute; discriminate.
+  - unfold a64_rel_path in I'. apply in_app_or in I'. destruct I' as [I' | I'].
+    + destruct reg_ok; [destruct I' | destruct I' as [I' | []]; inversion I'; subst; vm_compute; discriminate].
+    + cbn [app In] in I'. destruct I' as [I' | [I' | I']]; try discriminate.
+      destruct (bound_here s id); [| cbn in I'; intuition discriminate].
+      destruct (((z - cur_size s) mod 2 ^ discard =? 0) && fits_signed bits ((z - cur_size s) / 2 ^ discard)); cbn in I'; destruct I' as [I' | I']; try contradiction; try discriminate.
+      inversion I'; subst; vm_compute; discriminate.
 Qed.
 
 (* ---------------------------------------------------------------- link to the displacement codec proved for C17 *)
